@@ -121,13 +121,10 @@ def validate_lexer_trace(ctx, trace_path, tag, timeout=3000):
     if res.distinct != n + 1:
         raise Infra("trace validation %s consumed %d of %d events (trace spec stuck?)\n%s" % (tag, res.distinct - 1, n, res.out[-1500:]))
     rej, dev = set(), {}
-    for ln in res.lines:
-        m = re.match(r'^<<"REJECT", (\d+)>>', ln)
-        if m:
-            rej.add(int(m.group(1)))
-        m = re.match(r'^<<"DEV", (\d+), "([^"]+)">>', ln)
-        if m:
-            dev[int(m.group(1))] = m.group(2)
+    for m in re.finditer(r'<<\s*"REJECT",\s*(\d+)\s*>>', res.out):
+        rej.add(int(m.group(1)))
+    for m in re.finditer(r'<<\s*"DEV",\s*(\d+),\s*"([^"]+)"\s*>>', res.out):
+        dev[int(m.group(1))] = m.group(2)
     return n, sorted(rej), dev
 
 
@@ -323,12 +320,13 @@ def check_C39(ctx):
         if res.distinct != len(part) + 1:
             raise Infra("judge %d consumed %d of %d observations\n%s" % (k, res.distinct - 1, len(part), res.out[-1500:]))
         bad = {}
-        for ln in res.lines:
-            m = re.match(r'^<<"BAD", (\d+), \{(.*?)\}, \{(.*?)\}>>', ln)
-            if m:
-                reasons = [x.strip().strip('"') for x in m.group(2).split(",") if x.strip()]
-                lost = [x.strip().strip('"') for x in m.group(3).split(",") if x.strip()]
-                bad[k * per + int(m.group(1))] = (reasons, lost)
+        # TLC wraps long tuples over several lines (`<< "BAD",\n 17,\n {...},\n {...} >>`): parse the whole output
+        for m in re.finditer(r'<<\s*"BAD",\s*(\d+),\s*\{(.*?)\},\s*\{(.*?)\}\s*>>', res.out, re.S):
+            reasons = [x.strip().strip('"') for x in m.group(2).split(",") if x.strip()]
+            lost = [x.strip().strip('"') for x in m.group(3).split(",") if x.strip()]
+            bad[k * per + int(m.group(1))] = (reasons, lost)
+        if res.out.count('"BAD"') != len(set(re.findall(r'"BAD",\s*(\d+),', res.out))) and not bad:
+            raise Infra("judge %d: BAD lines present but not parsed" % k)
         return k, bad
     with cf.ThreadPoolExecutor(max_workers=min(nchunks, 8)) as ex:
         judged = list(ex.map(judge, range(nchunks)))
@@ -340,10 +338,13 @@ def check_C39(ctx):
                 raise Infra("observation / detail files out of step at %d" % i)
             nbad += 1
             poss = d["pos"].split(" & ")
-            lostpos = " & ".join(poss[int(t[1:]) - 1] for t in sorted(lost) if t[1:].isdigit() and int(t[1:]) <= len(poss))
+            run = bool(d.get("seps"))
+            lostpos = d["pos"] if run and lost else \
+                " & ".join(poss[int(t[1:]) - 1] for t in sorted(lost) if t[1:].isdigit() and int(t[1:]) <= len(poss))
             for r in reasons:
                 sig = {"reason": r, "form": d["form"], "parent": d["parent"], "pos": d["pos"], "lostpos": lostpos,
-                       "kinds": d["kinds"], "layout": d["layout"], "opt": d["opt"], "comments": len(poss)}
+                       "kinds": d["kinds"], "layout": d["layout"], "opt": d["opt"], "comments": d.get("comments", len(poss)),
+                       "run": d.get("seps", "")}
                 tail = {"ast-changed": "AST difference: " + d.get("astdiff", ""),
                         "output-does-not-parse": "parse error: " + d.get("astdiff", ""),
                         "comment-lost": "lost: %s (at %s)" % (",".join(lost), lostpos),
